@@ -10,10 +10,13 @@ fuel does the same on both — same outcome, cursor `≤ N` — or, on both, end
 
 * `ParserLocalSimDefs` (this file) — `TailB`, `Sim`, `CurLe`, `Past`, `SimR`, `CurGe`;
 * `ParserLocalSimGe` — one-source cursor monotonicity (`GSpecs`: no function reports a cursor before its start);
-* `ParserLocalSimLeaf*` — the leaf scanners agree below `N`;
-* `ParserLocalSimExpr*` — the joint induction over the eight mutually recursive functions (`SSpecs`);
-* `ParserLocalSimEntry` — attributes, messages, terms, `get_entry`, junk recovery, and the statements for two sources
-  that hold the common bytes at different offsets.
+* `ParserLocalSimLeaf`, `ParserLocalSimLeaf2` — the leaf scanners agree below `N`;
+* `ParserLocalSimExprAux`, `ParserLocalSimExpr`, `ParserLocalSimExpr2` — the joint induction over the eight mutually
+  recursive functions (`SSpecs`, `sspecs_all`);
+* `ParserLocalSimEntry`, `ParserLocalSimEntry2` — attributes, messages, terms, `get_entry`, junk recovery
+  (`junk_sim`, `attr_sim`);
+* `ParserLocalSimTop` — the statements for two sources that hold the common bytes at different offsets
+  (`junk_transfer`, `attr_transfer`).
 -/
 namespace FluentProofs.Parser
 open FluentModel.Syntax
